@@ -133,4 +133,29 @@ def dvzReplay (n : Nat) (f : (Nat → Int) → Int) (trig : Nat → Bool) (inits
   let c3 := runThread S (fun _ => false) 0 1000 c2
   runThread S (fun _ => false) 1 1000 c3
 
+/-- the constructor is about to subscribe to its next input -/
+def DVT.atSubscribe : DVT → Bool
+  | .cIdle (_ :: _) => true
+  | _ => false
+
+/-- The constructor (thread 0) runs up to its `k`-th registration and makes it (callback registered, value read,
+execution lock taken; the initial invocation not begun): the window of the hook `VerifOnUpdateWindow`. -/
+def dvwPark (S : Sys DVS DVT) : Nat → Cfg DVS DVT → Cfg DVS DVT
+  | 0, c => c
+  | k + 1, c =>
+    let c2 := runThread S (fun _ => false) 0 1 (runThread S DVT.atSubscribe 0 1000 c)
+    if k == 0 then c2 else dvwPark S k c2
+
+/-- **The forced schedule of `stress onupdate dvar`**: the constructor is parked in the window of its `k`-th
+subscription, the writer makes its writes as far as it can (a write to the input that is being subscribed waits for
+the execution lock), the constructor finishes, the writer finishes. -/
+def dvwReplay (n : Nat) (f : (Nat → Int) → Int) (trig : Nat → Bool) (inits : List Int) (k : Nat) (writes : List (Nat × Int)) :
+    Cfg DVS DVT :=
+  let S := dvSys n f trig
+  let c0 : Cfg DVS DVT := (DVS.fresh (fun i => inits.getD i 0) 0, [DVT.cIdle (List.range n), DVT.idle writes])
+  let c1 := dvwPark S k c0
+  let c2 := runThread S (fun _ => false) 1 1000 c1
+  let c3 := runThread S (fun _ => false) 0 1000 c2
+  runThread S (fun _ => false) 1 1000 c3
+
 end Hive.Derived
